@@ -52,9 +52,14 @@
         while k < n {
             a.push(vec![if coarse { dq() } else { dy() }]);
             b.push(if coarse { dq() } else { dy() });
-            basis.push(k + 1);
+            // the basic variable of each row is symbolic: the tie-break of the ratio test depends on the ORDER of these indices
+            let bv: u8 = kani::any();
+            kani::assume(1 <= bv && bv <= 6);
+            basis.push(bv as usize);
             k += 1;
         }
+        let mut i = 0;
+        while i < n { let mut j = i + 1; while j < n { kani::assume(basis[i] != basis[j]); j += 1; } i += 1; }
         let t = Tableau::new(vec![-1.0], a.clone(), b.clone(), basis, 0.0, 0.0, vec![], false);
         kani::cover!(true);
         match t.find_t(0, &[]) {
@@ -83,6 +88,9 @@
     #[kani::proof]
     #[kani::unwind(5)]
     fn find_t_2rows_coarse() { find_t_rows(2, true); }
+    #[kani::proof]
+    #[kani::unwind(6)]
+    fn find_t_3rows_coarse() { find_t_rows(3, true); }
     #[kani::proof]
     #[kani::unwind(5)]
     fn find_t_2rows() { find_t_rows(2, false); }
